@@ -277,14 +277,28 @@ def function_templates(crate, prefix):
     for b in roots:
         if b.path in owned:
             continue
-        ib = crate.inlined(b)
-        tpls = templates(ib)
-        keep = []
-        for t in tpls:
-            key = (t.file, t.line, t.text())
-            if key in seen:
-                continue
-            seen.add(key)
-            keep.append(t)
-        out.append((ib, tpls, keep))
+        group = crate.owned_by(b.path)
+        # the function itself, then the closures it (or a helper) defines: a closure's body is not part of its
+        # parent's MIR, the helpers it calls are spliced into it
+        for bb in [b] + [x for x in crate.bodies if x.kind == "Closure" and x.path in group]:
+            ib = crate.inlined(bb) if bb is b else Body_inlined_closure(crate, bb, group)
+            tpls = templates(ib)
+            keep = []
+            for t in tpls:
+                key = (t.file, t.line, t.text())
+                if key in seen:
+                    continue
+                seen.add(key)
+                keep.append(t)
+            if bb is b or keep:
+                out.append((ib, tpls, keep))
     return out
+
+
+def Body_inlined_closure(crate, cb, group):
+    key = ("closure", cb.path)
+    if key not in crate._inl:
+        nb = M.Body(M.inline_raw(crate, cb, 3, ("TS",), only=group), crate.name)
+        nb.plain = cb
+        crate._inl[key] = nb
+    return crate._inl[key]
